@@ -155,13 +155,27 @@ var blockPieces = []string{"a", "b", "Z", "0", " ", "{", "}", "#", ",", ":", "\\
 func blockTrimmed(raw string) string { return strings.Trim(raw, " \t\r\n") }
 
 // blockQuoteClass: raw text whose trimmed form ends in a quote (the printer would merge it
-// with the closing delimiter; the lexer also loses quotes that precede trailing white space),
+// with the closing delimiter; the lexer also loses quotes that precede trailing white space)
+// or in a backslash (the printed text then ends in the escape \"""),
 // starts with a quote (the lexer drops leading quotes that are followed by white space), or
 // that has a quote directly after the escape \""" (the lexer only skips one quote after a
 // backslash) — recorded finding C05-block-string-quotes.
 func blockQuoteClass(raw string) bool {
 	t := blockTrimmed(raw)
-	return strings.HasSuffix(t, `"`) || strings.HasPrefix(t, `"`) || strings.Contains(raw, `\""""`)
+	return strings.HasSuffix(t, `"`) || strings.HasSuffix(t, `\`) || strings.HasPrefix(t, `"`) || strings.Contains(raw, `\""""`)
+}
+
+// blockLoneCRClass: a carriage return that is not part of CRLF inside the text (a line
+// terminator of the grammar that the description printer does not treat as one) — recorded
+// finding C05-description-lone-cr.
+func blockLoneCRClass(raw string) bool {
+	t := blockTrimmed(raw)
+	for i := 0; i < len(t); i++ {
+		if t[i] == '\r' && (i+1 >= len(t) || t[i+1] != '\n') {
+			return true
+		}
+	}
+	return false
 }
 
 // blockBackslashClass: a backslash comes before the first character that is neither white
@@ -185,6 +199,9 @@ func (g *gen) blockRawText() string {
 		if g.o.wild && g.chance(4, "crlf") {
 			g.flag("block-string-crlf")
 			return "\r\n"
+		}
+		if g.o.wild && g.risk("C05-description-lone-cr", "lonecr") {
+			return "\r"
 		}
 		return "\n"
 	}
@@ -260,7 +277,7 @@ func (g *gen) blockRawText() string {
 		if g.chance(3, "blockquotehead") {
 			raw = rapid.SampledFrom([]string{`"" `, `" `, "\"\n", `"`}).Draw(g.t, "blockquotehead") + raw
 		} else {
-			raw += rapid.SampledFrom([]string{`" `, ` "" `, "\"\n", `\"""`, "x\\\"\"\"\n"}).Draw(g.t, "blockquotetail")
+			raw += rapid.SampledFrom([]string{`" `, ` "" `, "\"\n", `\"""`, "x\\\"\"\"\n", "\\\n", "\\ "}).Draw(g.t, "blockquotetail")
 		}
 	}
 	return raw
@@ -280,10 +297,13 @@ func (g *gen) stringLit(kStr, kBlock string) *sn {
 		if blockBackslashClass(raw) {
 			g.flag("block-backslash-class")
 		}
+		if blockLoneCRClass(raw) {
+			g.flag("block-lone-cr-class")
+		}
 		if strings.Contains(raw, `\"""`) {
 			g.flag("block-string-escaped-delimiter")
 		}
-		if strings.Contains(raw, "\n") {
+		if strings.ContainsAny(raw, "\r\n") {
 			g.flag("block-string-multiline")
 		}
 		g.emit(tkString, `"""`+raw+`"""`)
